@@ -10,7 +10,10 @@ Helper lemmas for C13 (decoded values are coherent and safe to use):
   a user can observe;
 * inversion of the PDU decoders: what a successfully decoded value looks like (`Request.Decoded`,
   `Response.Decoded`);
-* the decoders on the wire images of such values (decoding is idempotent up to normalisation).
+* the decoders on the wire images of such values (decoding is idempotent up to normalisation);
+* the D5b region on the wire bytes (`WmcMismatch`, `WmcShort`, `WmcTruncated`) and what follows for a
+  decoded value inside / outside it;
+* the ADU scan: the frame it returns is what the attempt saw at `loc.start`, its PDU a slice of the input.
 -/
 namespace Modbus
 open Modbus.Total
@@ -564,5 +567,427 @@ theorem Response.redecode_regs (d : Data) (h1 : d.quantity * 2 ≤ 255) (h2 : d.
   have := Response.decode_regs_bytes (UInt8.ofNat (d.quantity * 2)) (d.data.take (d.quantity * 2)) hl
   rw [UInt8.toNat_ofNat_of_le h1, Nat.mul_div_cancel _ (by omega : 0 < 2)] at this
   exact this
+
+
+/-! ### the write-multiple-coils defect region (open finding D5b), on the wire bytes -/
+
+/- The fields are read with `getD … 0`, so the predicates are total and decidable on every byte string;
+   a string too short to have the fields (fewer than six bytes) is rejected by the decoder anyway, so
+   the default never matters for an accepted input. -/
+
+/-- function code 0x0F and the byte-count field differs from ⌈quantity/8⌉ -/
+def WmcMismatch (b : Bytes) : Prop := b[0]? = some 0x0F ∧ wmcByteCount b ≠ (wmcQuantity b + 7) / 8
+/-- function code 0x0F and the byte-count field is smaller than ⌈quantity/8⌉ -/
+def WmcShort (b : Bytes) : Prop := b[0]? = some 0x0F ∧ wmcByteCount b < (wmcQuantity b + 7) / 8
+/-- function code 0x0F and fewer than ⌈quantity/8⌉ data bytes follow the six header bytes -/
+def WmcTruncated (b : Bytes) : Prop := b[0]? = some 0x0F ∧ b.length - 6 < (wmcQuantity b + 7) / 8
+
+instance (b : Bytes) : Decidable (WmcMismatch b) := by unfold WmcMismatch; infer_instance
+instance (b : Bytes) : Decidable (WmcShort b) := by unfold WmcShort; infer_instance
+instance (b : Bytes) : Decidable (WmcTruncated b) := by unfold WmcTruncated; infer_instance
+
+theorem WmcShort.mismatch {b : Bytes} (h : WmcShort b) : WmcMismatch b := ⟨h.1, by have := h.2; omega⟩
+
+/-- the payload container (if any) holds the bytes its quantity promises -/
+def Request.PayloadOk : Request → Prop
+  | .writeMultipleCoils _ c => c.Ok
+  | .writeMultipleRegisters _ d | .readWriteMultipleRegisters _ _ _ d | .diagnostics _ d => d.Ok
+  | _ => True
+
+def Response.PayloadOk : Response → Prop
+  | .readCoils c | .readDiscreteInputs c => c.Ok
+  | .readInputRegisters d | .readHoldingRegisters d | .readWriteMultipleRegisters d | .diagnostics d => d.Ok
+  | _ => True
+
+/-! ### facts about decoded requests -/
+
+theorem Request.Decoded.payloadOk {b : Bytes} {v : Request} (hd : Request.Decoded b v)
+    (h : ¬ WmcTruncated b) : v.PayloadOk := by
+  cases hd with
+  | writeMultipleCoils a q h0 hq hl =>
+    show packedCoilsLen q.toNat ≤ (b.drop 6).length
+    have : ¬ (b.length - 6 < (wmcQuantity b + 7) / 8) := fun h' => h ⟨h0, h'⟩
+    rw [List.length_drop, hq]; unfold packedCoilsLen
+    omega
+  | writeMultipleRegisters a q data h1 h2 => show q.toNat * 2 ≤ data.length; omega
+  | readWriteMultipleRegisters ra rq wa q data h1 h2 => show q.toNat * 2 ≤ data.length; omega
+  | _ => trivial
+
+theorem Request.Decoded.not_truncated {b : Bytes} {v : Request} (hd : Request.Decoded b v)
+    (hh : b[0]? = some v.fc.value) (hp : v.PayloadOk) : ¬ WmcTruncated b := by
+  intro ⟨h0, ht⟩
+  rw [h0] at hh
+  have hh := Option.some.inj hh
+  cases hd with
+  | writeMultipleCoils a q h0 hq hl =>
+    have hp : packedCoilsLen q.toNat ≤ (b.drop 6).length := hp
+    rw [List.length_drop, hq] at hp; unfold packedCoilsLen at hp
+    omega
+  | custom fc d hlt ho =>
+    have : fc = 0x0F := hh.symm
+    subst this
+    exact absurd ho (by decide)
+  | _ => exact absurd hh (by simp [Request.fc, FunctionCode.value])
+
+theorem Request.Decoded.not_truncated_of_not_short {b : Bytes} {v : Request} (hd : Request.Decoded b v)
+    (hh : b[0]? = some v.fc.value) (h : ¬ WmcShort b) : ¬ WmcTruncated b := by
+  intro ⟨h0, ht⟩
+  rw [h0] at hh
+  have hh := Option.some.inj hh
+  cases hd with
+  | writeMultipleCoils a q h0 hq hl => exact h ⟨h0, by omega⟩
+  | custom fc d hlt ho =>
+    have : fc = 0x0F := hh.symm
+    subst this
+    exact absurd ho (by decide)
+  | _ => exact absurd hh (by simp [Request.fc, FunctionCode.value])
+
+theorem Request.Decoded.pduLen_ne_panic {b : Bytes} {v : Request} (hd : Request.Decoded b v) :
+    v.pduLen ≠ .panic := by
+  cases hd <;> simp [Request.pduLen]
+
+theorem Request.Decoded.encodable {b : Bytes} {v : Request} (hd : Request.Decoded b v)
+    (h : ¬ WmcShort b) : v.Encodable := by
+  cases hd with
+  | writeMultipleCoils a q h0 hq hl =>
+    have h' : ¬ (wmcByteCount b < (wmcQuantity b + 7) / 8) := fun h' => h ⟨h0, h'⟩
+    have hbc : wmcByteCount b ≤ 255 := by
+      have := (b.getD 5 0).toNat_lt; unfold wmcByteCount; omega
+    show packedCoilsLen q.toNat ≤ 255 ∧ packedCoilsLen q.toNat ≤ (b.drop 6).length
+    rw [List.length_drop, hq]; unfold packedCoilsLen
+    omega
+  | writeMultipleRegisters a q data h1 h2 => exact h2
+  | readWriteMultipleRegisters ra rq wa q data h1 h2 => exact h2
+  | _ => trivial
+
+/-- a write-multiple-coils value of more than 2040 coils is refused by the encoder (an error, not a panic) -/
+theorem Request.encode_wmc_big (a : UInt16) (c : Coils) (h : 255 < c.packedLen) (buf : Bytes) :
+    (Request.writeMultipleCoils a c).encode buf = .err .bufferSize := by
+  unfold Request.encode
+  simp only [Request.pduLen, Res.bind'_ok]
+  by_cases hb : buf.length < 6 + c.packedLen
+  · rw [if_pos hb]
+  · rw [if_neg hb]
+    have hw := applyWrites_from_zero [(0, [(Request.writeMultipleCoils a c).fc.value]), (1, be16 a)] buf
+      (by simp [Tiled]) (by simp [segBytes]; omega)
+    have hu : u8TryFrom c.packedLen = .err .bufferSize := by
+      simp only [u8TryFrom, if_neg (show ¬ c.packedLen ≤ 255 by omega)]
+    simp only [hw, Res.bind'_ok, hu, Res.bind'_err]
+
+theorem Request.Decoded.encode_ne_panic {b : Bytes} {v : Request} (hd : Request.Decoded b v)
+    (hp : v.PayloadOk) (buf : Bytes) : v.encode buf ≠ .panic := by
+  by_cases he : v.Encodable
+  · rw [Request.encode_eq v buf he]; split <;> simp
+  · cases hd with
+    | writeMultipleCoils a q h0 hq hl =>
+      have hp : packedCoilsLen q.toNat ≤ (b.drop 6).length := hp
+      have : 255 < (Coils.mk (b.drop 6) q.toNat).packedLen := by
+        apply Nat.lt_of_not_le
+        intro h1
+        exact he ⟨h1, hp⟩
+      rw [Request.encode_wmc_big _ _ this]; simp
+    | writeMultipleRegisters a q data h1 h2 => exact absurd h2 he
+    | readWriteMultipleRegisters ra rq wa q data h1 h2 => exact absurd h2 he
+    | _ => exact absurd trivial he
+
+/-- decoding the wire image of a decoded request succeeds and gives a value with the same meaning -/
+theorem Request.Decoded.redecode {b : Bytes} {v : Request} (hd : Request.Decoded b v) (he : v.Encodable) :
+    ∃ v', Request.decode v.image = .ok v' ∧ v'.sem = v.sem := by
+  cases hd with
+  | readCoils a q => exact ⟨_, Request.decode_fixed_image.1 a q, rfl⟩
+  | readDiscreteInputs a q => exact ⟨_, Request.decode_fixed_image.2.1 a q, rfl⟩
+  | readInputRegisters a q => exact ⟨_, Request.decode_fixed_image.2.2.1 a q, rfl⟩
+  | readHoldingRegisters a q => exact ⟨_, Request.decode_fixed_image.2.2.2.1 a q, rfl⟩
+  | writeSingleRegister a q => exact ⟨_, Request.decode_fixed_image.2.2.2.2 a q, rfl⟩
+  | writeSingleCoil a c => exact ⟨_, Request.decode_writeSingleCoil_image a c, rfl⟩
+  | writeMultipleCoils a q h0 hq hl =>
+    obtain ⟨h1, h2⟩ := he
+    refine ⟨_, Request.redecode_wmc a _ (by have := q.toNat_lt; simpa using this) h1 h2, ?_⟩
+    show (Coils.items _).map _ = (Coils.items _).map _
+    rw [Coils.items_take _ _ (Nat.le_refl _)]
+  | writeMultipleRegisters a q data h1 h2 =>
+    exact ⟨_, Request.redecode_wmr a _ (by have := q.toNat_lt; simpa using this) h2 h1, rfl⟩
+  | readWriteMultipleRegisters ra rq wa q data h1 h2 =>
+    exact ⟨_, Request.redecode_rwmr ra rq wa _ (by have := q.toNat_lt; simpa using this) h2 h1, rfl⟩
+  | custom fc d hlt ho => exact ⟨_, Request.decode_custom_bytes fc d hlt ho, rfl⟩
+
+theorem Request.Decoded.sem_isSome {b : Bytes} {v : Request} (hd : Request.Decoded b v)
+    (hp : v.PayloadOk) : v.sem.isSome = true := by
+  cases hd with
+  | writeMultipleCoils a q h0 hq hl =>
+    have := Coils.Ok.items_isSome (c := ⟨b.drop 6, q.toNat⟩) hp
+    simpa [Request.sem] using this
+  | writeMultipleRegisters a q data h1 h2 =>
+    have := Data.Ok.items_isSome (d := ⟨data, q.toNat⟩) hp
+    simpa [Request.sem] using this
+  | readWriteMultipleRegisters ra rq wa q data h1 h2 =>
+    have := Data.Ok.items_isSome (d := ⟨data, q.toNat⟩) hp
+    simpa [Request.sem] using this
+  | _ => rfl
+
+
+/-! ### facts about decoded responses (no exclusion: the response decoder derives the quantity from the byte count) -/
+
+theorem Response.Decoded.encodable {v : Response} (hd : Response.Decoded v) : v.Encodable := by
+  cases hd with
+  | readCoils bc data h | readDiscreteInputs bc data h =>
+    have := bc.toNat_lt
+    show packedCoilsLen (bc.toNat * 8) ≤ 255 ∧ packedCoilsLen (bc.toNat * 8) ≤ data.length
+    unfold packedCoilsLen; omega
+  | readInputRegisters bc data h | readHoldingRegisters bc data h | readWriteMultipleRegisters bc data h =>
+    have := bc.toNat_lt
+    show bc.toNat / 2 * 2 ≤ 255 ∧ bc.toNat / 2 * 2 ≤ data.length
+    omega
+  | _ => trivial
+
+theorem Response.Decoded.payloadOk {v : Response} (hd : Response.Decoded v) : v.PayloadOk := by
+  cases hd with
+  | readCoils bc data h | readDiscreteInputs bc data h =>
+    show packedCoilsLen (bc.toNat * 8) ≤ data.length
+    unfold packedCoilsLen; omega
+  | readInputRegisters bc data h | readHoldingRegisters bc data h | readWriteMultipleRegisters bc data h =>
+    show bc.toNat / 2 * 2 ≤ data.length
+    omega
+  | _ => trivial
+
+theorem Response.Decoded.pduLen_ne_panic {v : Response} (hd : Response.Decoded v) : v.pduLen ≠ .panic := by
+  cases hd <;> simp [Response.pduLen]
+
+/-- decoding the wire image of a decoded response succeeds and gives a value with the same meaning
+    (a trailing odd byte of a register response is dropped by the encoder) -/
+theorem Response.Decoded.redecode {v : Response} (hd : Response.Decoded v) :
+    ∃ v', Response.decode v.image = .ok v' ∧ v'.sem = v.sem := by
+  have he := hd.encodable
+  cases hd with
+  | readCoils bc data h =>
+    obtain ⟨h1, h2⟩ := he
+    refine ⟨_, (Response.redecode_coils _ h1 h2).1, ?_⟩
+    have hq : (Coils.mk data (bc.toNat * 8)).packedLen * 8 = bc.toNat * 8 := by
+      show packedCoilsLen (bc.toNat * 8) * 8 = _; unfold packedCoilsLen; omega
+    rw [hq]
+    show (Coils.items _).map _ = (Coils.items _).map _
+    rw [Coils.items_take ⟨data, bc.toNat * 8⟩ _ (Nat.le_refl _)]
+  | readDiscreteInputs bc data h =>
+    obtain ⟨h1, h2⟩ := he
+    refine ⟨_, (Response.redecode_coils _ h1 h2).2, ?_⟩
+    have hq : (Coils.mk data (bc.toNat * 8)).packedLen * 8 = bc.toNat * 8 := by
+      show packedCoilsLen (bc.toNat * 8) * 8 = _; unfold packedCoilsLen; omega
+    rw [hq]
+    show (Coils.items _).map _ = (Coils.items _).map _
+    rw [Coils.items_take ⟨data, bc.toNat * 8⟩ _ (Nat.le_refl _)]
+  | readHoldingRegisters bc data h =>
+    obtain ⟨h1, h2⟩ := he
+    refine ⟨_, (Response.redecode_regs _ h1 h2).1, ?_⟩
+    show (Data.items _).map _ = (Data.items _).map _
+    rw [Data.items_take ⟨data, bc.toNat / 2⟩ _ (Nat.le_refl _)]
+  | readInputRegisters bc data h =>
+    obtain ⟨h1, h2⟩ := he
+    refine ⟨_, (Response.redecode_regs _ h1 h2).2.1, ?_⟩
+    show (Data.items _).map _ = (Data.items _).map _
+    rw [Data.items_take ⟨data, bc.toNat / 2⟩ _ (Nat.le_refl _)]
+  | readWriteMultipleRegisters bc data h =>
+    obtain ⟨h1, h2⟩ := he
+    refine ⟨_, (Response.redecode_regs _ h1 h2).2.2, ?_⟩
+    show (Data.items _).map _ = (Data.items _).map _
+    rw [Data.items_take ⟨data, bc.toNat / 2⟩ _ (Nat.le_refl _)]
+  | writeSingleCoil a => exact ⟨_, Response.decode_fixed_image.1 a, rfl⟩
+  | writeMultipleCoils a q => exact ⟨_, Response.decode_fixed_image.2.1 a q, rfl⟩
+  | writeSingleRegister a q => exact ⟨_, Response.decode_fixed_image.2.2.1 a q, rfl⟩
+  | writeMultipleRegisters a q => exact ⟨_, Response.decode_fixed_image.2.2.2 a q, rfl⟩
+  | custom fc d ho =>
+    refine ⟨_, ?_, rfl⟩
+    show Response.decode ((FunctionCode.new fc).value :: d) = _
+    rw [FunctionCode.value_new]
+    exact Response.decode_custom_bytes fc d ho
+
+theorem Response.Decoded.sem_isSome {v : Response} (hd : Response.Decoded v) : v.sem.isSome = true := by
+  have hp := hd.payloadOk
+  cases hd with
+  | readCoils bc data h | readDiscreteInputs bc data h =>
+    have := Coils.Ok.items_isSome (c := ⟨data, bc.toNat * 8⟩) hp
+    simpa [Response.sem] using this
+  | readInputRegisters bc data h | readHoldingRegisters bc data h | readWriteMultipleRegisters bc data h =>
+    have := Data.Ok.items_isSome (d := ⟨data, bc.toNat / 2⟩) hp
+    simpa [Response.sem] using this
+  | _ => rfl
+
+
+/-! ### the ADU decoders: the frame found is what the attempt saw at its start offset, and its PDU is a
+contiguous slice of the input -/
+
+theorem scanFrom_found {F : Type} (att : Attempt F) (buf : Bytes) (f : F) (loc : Loc) :
+    ∀ d, scanFrom att buf d = .ok (some (f, loc)) → att (buf.drop loc.start) = .ok (some (f, loc.size)) := by
+  suffices h : ∀ k d, buf.length - d ≤ k → scanFrom att buf d = .ok (some (f, loc)) →
+      att (buf.drop loc.start) = .ok (some (f, loc.size)) from
+    fun d => h (buf.length - d) d (Nat.le_refl _)
+  intro k
+  induction k with
+  | zero =>
+    intro d hk h
+    rw [scanFrom, dif_pos (by omega)] at h; cases h
+  | succ k ih =>
+    intro d hk h
+    rw [scanFrom] at h
+    by_cases hd : d + 1 ≥ buf.length
+    · rw [dif_pos hd] at h; cases h
+    · rw [dif_neg hd] at h
+      cases hatt : att (buf.drop d) with
+      | panic => rw [hatt] at h; cases h
+      | ok o =>
+        rw [hatt] at h
+        cases o with
+        | none => cases h
+        | some p =>
+          obtain ⟨f', sz⟩ := p
+          simp only [Res.ok.injEq, Option.some.injEq, Prod.mk.injEq] at h
+          obtain ⟨rfl, rfl⟩ := h
+          exact hatt
+      | err e =>
+        rw [hatt] at h
+        simp only at h
+        by_cases hm : d + 1 ≥ maxFrameLen
+        · rw [if_pos hm] at h; cases h
+        · rw [if_neg hm] at h
+          exact ih (d + 1) (by omega) h
+
+theorem scan_found_at {F : Type} (att : Attempt F) (buf : Bytes) (f : F) (loc : Loc)
+    (h : scan att buf = .ok (some (f, loc))) : att (buf.drop loc.start) = .ok (some (f, loc.size)) := by
+  unfold scan at h
+  by_cases he : buf.isEmpty
+  · rw [if_pos he] at h; cases h
+  · rw [if_neg he] at h; exact scanFrom_found att buf f loc 0 h
+
+theorem mkAttempt_found {F : Type} (predict : Bytes → Res (Option Nat))
+    (extract : Bytes → Nat → Res (Option F)) (oh : Nat) (raw : Bytes) (f : F) (sz : Nat)
+    (h : mkAttempt predict extract oh raw = .ok (some (f, sz))) :
+    ∃ n, extract raw n = .ok (some f) ∧ sz = n + oh := by
+  unfold mkAttempt at h
+  cases hp : predict raw with
+  | err e => rw [hp] at h; cases h
+  | panic => rw [hp] at h; cases h
+  | ok o =>
+    rw [hp] at h
+    cases o with
+    | none => cases h
+    | some n =>
+      simp only [Res.bind'_ok] at h
+      cases hx : extract raw n with
+      | err e => rw [hx] at h; cases h
+      | panic => rw [hx] at h; cases h
+      | ok r =>
+        rw [hx] at h
+        cases r with
+        | none => simp at h
+        | some f' =>
+          simp only [Res.map_ok, Res.ok.injEq, Option.some.injEq, Prod.mk.injEq] at h
+          obtain ⟨rfl, rfl⟩ := h
+          exact ⟨n, hx, rfl⟩
+
+theorem Rtu.extractFrame_pdu (raw : Bytes) (n : Nat) (f : Rtu.Frame)
+    (h : Rtu.extractFrame raw n = .ok (some f)) : f.pdu = (raw.drop 1).take n ∧ n + 3 ≤ raw.length := by
+  unfold Rtu.extractFrame at h
+  by_cases he : raw.isEmpty
+  · rw [if_pos he] at h; cases h
+  rw [if_neg he] at h
+  by_cases ho : 1 + n + 2 ≥ usizeLimit
+  · rw [if_pos ho] at h; cases h
+  rw [if_neg ho] at h
+  simp only at h
+  by_cases hl : raw.length ≥ 1 + n + 2
+  · rw [if_pos hl] at h
+    cases hr : read16 (raw.drop (1 + n)) 0 with
+    | err e => rw [hr] at h; cases h
+    | panic => rw [hr] at h; cases h
+    | ok ex =>
+      rw [hr] at h
+      simp only [Res.bind'_ok] at h
+      by_cases hc : (ex != crc16 (raw.take (1 + n))) = true
+      · rw [if_pos hc] at h; cases h
+      · rw [if_neg hc] at h
+        cases hi : idx (raw.take (1 + n)) 0 with
+        | err e => rw [hi] at h; cases h
+        | panic => rw [hi] at h; cases h
+        | ok s =>
+          rw [hi] at h
+          simp only [Res.bind'_ok, Res.ok.injEq, Option.some.injEq] at h
+          subst h
+          refine ⟨?_, by omega⟩
+          show (raw.take (1 + n)).drop 1 = (raw.drop 1).take n
+          rw [List.drop_take]
+          congr 1; omega
+  · rw [if_neg hl] at h; cases h
+
+theorem Tcp.extractFrame_pdu (raw : Bytes) (n : Nat) (f : Tcp.Frame)
+    (h : Tcp.extractFrame raw n = .ok (some f)) : f.pdu = (raw.drop 7).take n ∧ n + 7 ≤ raw.length := by
+  unfold Tcp.extractFrame at h
+  by_cases he : raw.isEmpty
+  · rw [if_pos he] at h; cases h
+  rw [if_neg he] at h
+  by_cases ho : 7 + n ≥ usizeLimit
+  · rw [if_pos ho] at h; cases h
+  rw [if_neg ho] at h
+  simp only at h
+  by_cases hl : raw.length ≥ 7 + n
+  · rw [if_pos hl] at h
+    cases hp : read16 (raw.take (7 + n)) 2 with
+    | err e => rw [hp] at h; cases h
+    | panic => rw [hp] at h; cases h
+    | ok p =>
+      rw [hp] at h
+      simp only [Res.bind'_ok] at h
+      by_cases hc : (p != 0) = true
+      · rw [if_pos hc] at h; cases h
+      rw [if_neg hc] at h
+      cases ht : read16 (raw.take (7 + n)) 0 with
+      | err e => rw [ht] at h; cases h
+      | panic => rw [ht] at h; cases h
+      | ok t =>
+        rw [ht] at h
+        simp only [Res.bind'_ok] at h
+        cases hm : read16 (raw.take (7 + n)) 4 with
+        | err e => rw [hm] at h; cases h
+        | panic => rw [hm] at h; cases h
+        | ok m =>
+          rw [hm] at h
+          simp only [Res.bind'_ok] at h
+          cases hu : idx (raw.take (7 + n)) 6 with
+          | err e => rw [hu] at h; cases h
+          | panic => rw [hu] at h; cases h
+          | ok u =>
+            rw [hu] at h
+            simp only [Res.bind'_ok] at h
+            by_cases hlen : m.toNat ≠ n + 1
+            · rw [if_pos hlen] at h; cases h
+            rw [if_neg hlen] at h
+            simp only [Res.ok.injEq, Option.some.injEq] at h
+            subst h
+            refine ⟨?_, by omega⟩
+            show (raw.take (7 + n)).drop 7 = (raw.drop 7).take n
+            rw [List.drop_take]
+            congr 1; omega
+  · rw [if_neg hl] at h; cases h
+
+/-- the PDU of a frame found by the RTU scan is the `n` bytes after the slave byte at `loc.start` -/
+theorem Rtu.scan_pdu_slice (att : Attempt Rtu.Frame) (predict : Bytes → Res (Option Nat))
+    (hatt : att = mkAttempt predict Rtu.extractFrame 3) (buf : Bytes) (f : Rtu.Frame) (loc : Loc)
+    (h : scan att buf = .ok (some (f, loc))) :
+    ∃ n, f.pdu = (buf.drop (loc.start + 1)).take n ∧ loc.size = n + 3 ∧ loc.start + n + 3 ≤ buf.length := by
+  subst hatt
+  obtain ⟨n, hx, hsz⟩ := mkAttempt_found _ _ _ _ _ _ (scan_found_at _ buf f loc h)
+  obtain ⟨hp, hl⟩ := Rtu.extractFrame_pdu _ _ _ hx
+  refine ⟨n, ?_, hsz, ?_⟩
+  · rw [hp, List.drop_drop]
+  · rw [List.length_drop] at hl; omega
+
+theorem Tcp.scan_pdu_slice (att : Attempt Tcp.Frame) (predict : Bytes → Res (Option Nat))
+    (hatt : att = mkAttempt predict Tcp.extractFrame 7) (buf : Bytes) (f : Tcp.Frame) (loc : Loc)
+    (h : scan att buf = .ok (some (f, loc))) :
+    ∃ n, f.pdu = (buf.drop (loc.start + 7)).take n ∧ loc.size = n + 7 ∧ loc.start + n + 7 ≤ buf.length := by
+  subst hatt
+  obtain ⟨n, hx, hsz⟩ := mkAttempt_found _ _ _ _ _ _ (scan_found_at _ buf f loc h)
+  obtain ⟨hp, hl⟩ := Tcp.extractFrame_pdu _ _ _ hx
+  refine ⟨n, ?_, hsz, ?_⟩
+  · rw [hp, List.drop_drop]
+  · rw [List.length_drop] at hl; omega
 
 end Modbus
